@@ -95,43 +95,12 @@ func checkC07(c *Ctx) {
 	}
 
 	// ---- (3)
+	checkIndexCacheOwner(c, "OWN-index-cache")
 	fCache := l.Field("", "nodeDB", "fastNodeCache")
 	commit := l.Func("", "*nodeDB.Commit")
 	if fCache == nil || commit == nil || getFast == nil {
 		c.anchorMissing("OWN-index-cache", "nodeDB.fastNodeCache / Commit")
 	} else {
-		n := 0
-		for _, fn := range l.SrcFuncs {
-			allInstrs(fn, func(in ssa.Instruction) {
-				cc := callCommon(in)
-				if cc == nil || !cc.IsInvoke() || !isLoadOfField(fCache)(cc.Value) {
-					return
-				}
-				m := cc.Method.Name()
-				if m != "Add" && m != "Remove" {
-					return
-				}
-				n++
-				key := l.fname(fn) + " fastNodeCache." + m
-				switch {
-				case fn == getFast && m == "Add":
-					c.ok("OWN-index-cache", key, l.ipos(in), "read-through fill by the lookup")
-				case fn == commit:
-					ok := false
-					for _, w := range callsIn(commit, isBatchWrite) {
-						if cl, isCall := w.(*ssa.Call); isCall && okEdgeDominatesPhi(cl, in) {
-							ok = true
-						}
-					}
-					c.decide("OWN-index-cache", key, l.ipos(in), ok, "after the physical write returned nil", "the index cache is updated although the write may have failed")
-				default:
-					c.bad("OWN-index-cache", key, l.ipos(in), "the index cache is modified outside the lookup and Commit: cache and storage can disagree before the commit")
-				}
-			})
-		}
-		if n < 3 {
-			c.anchorMissing("OWN-index-cache", "fewer than 3 cache update sites")
-		}
 		// key-space
 		var fkf *ssa.Global
 		if p := l.Pkg(""); p != nil {
@@ -169,82 +138,10 @@ func checkC07(c *Ctx) {
 	// ---- (4)
 	checkRebuildDecision(c, "PASS-index-maintenance")
 	checkIndexLabelLast(c, "PASS-index-maintenance")
-	// overlay recording
-	set := l.Func("", "*MutableTree.set")
-	rsl := l.Func("", "*MutableTree.recursiveSetLeaf")
-	rs := l.Func("", "*MutableTree.recursiveSet")
-	rem := l.Func("", "*MutableTree.Remove")
-	addA := l.Func("", "*MutableTree.addUnsavedAddition")
-	addR := l.Func("", "*MutableTree.addUnsavedRemoval")
-	fRoot := l.Field("", "ImmutableTree", "root")
-	if set == nil || rsl == nil || rs == nil || rem == nil || addA == nil || addR == nil || fRoot == nil {
-		c.anchorMissing("PASS-index-maintenance", "set / recursiveSet / recursiveSetLeaf / Remove / overlay helpers")
-	} else {
-		isCallTo := func(fs ...*ssa.Function) func(ssa.Instruction) bool {
-			p := predStatic(fs...)
-			return func(in ssa.Instruction) bool { cc := callCommon(in); return cc != nil && p(cc) }
-		}
-		// recursiveSetLeaf: every return records the addition
-		q := mustStateE(rsl, false, isCallTo(addA), nil, fastDisabledEdge)
-		ok := true
-		for _, r := range returnsOf(rsl) {
-			ok = ok && q(r)
-		}
-		c.decide("PASS-index-maintenance", "recursiveSetLeaf records the overlay addition", l.pos(rsl.Pos()), ok, "every return passes addUnsavedAddition or the index-disabled edge", "a leaf can be inserted/replaced without an overlay entry: indexed reads of the working state miss the write")
-		// recursiveSet: success returns pass a descent
-		q = mustState(rs, false, isCallTo(rs, rsl), nil)
-		ok = true
-		for _, r := range successReturns(rs) {
-			ok = ok && q(r)
-		}
-		c.decide("PASS-index-maintenance", "recursiveSet always descends to a leaf insert", l.pos(rs.Pos()), ok, "every success return passes recursiveSet/recursiveSetLeaf", "recursiveSet can return success without reaching the leaf insert that records the overlay")
-		// set / Remove: every store of the working root passes a recorder
-		for _, fn := range []*ssa.Function{set, rem} {
-			rec := isCallTo(addA, addR, rs, rsl)
-			q := mustStateE(fn, false, rec, nil, fastDisabledEdge)
-			sts := storesToField(fn, fRoot)
-			if len(sts) == 0 {
-				c.anchorMissing("PASS-index-maintenance", l.fname(fn)+" stores no root")
-			}
-			for _, st := range sts {
-				// recorder may also follow the store within the same straight-line region: accept if every return reachable from the store passes it
-				okk := q(st)
-				if !okk {
-					q2 := mustStateE(fn, false, rec, nil, fastDisabledEdge)
-					okk = true
-					searchFrom([]point{after(st)}, func(in ssa.Instruction) bool {
-						if r, isRet := in.(*ssa.Return); isRet {
-							if !q2(r) {
-								okk = false
-							}
-							return true
-						}
-						return false
-					})
-				}
-				c.decide("PASS-index-maintenance", l.fname(fn)+" new root ⇒ overlay entry", l.ipos(st), okk, "the working root changes only together with an overlay entry (or with the index disabled)", "the working root is replaced on a path that records no overlay entry")
-			}
-		}
-	}
-	// commit clears overlay
-	sv := l.Func("", "*MutableTree.SaveVersion")
-	fAdd := l.Field("", "MutableTree", "unsavedFastNodeAdditions")
-	fRem := l.Field("", "MutableTree", "unsavedFastNodeRemovals")
-	commitFn := l.Func("", "*nodeDB.Commit")
-	if sv != nil && fAdd != nil && fRem != nil && commitFn != nil {
-		for _, f := range []*types.Var{fAdd, fRem} {
-			f := f
-			q := mustStateE(sv, false, func(in ssa.Instruction) bool { return isStoreToField(in, f) }, nil, fastDisabledEdge)
-			passedCommit := mustState(sv, false, func(in ssa.Instruction) bool { cc := callCommon(in); return cc != nil && predStatic(commitFn)(cc) }, nil)
-			ok := true
-			for _, r := range successReturns(sv) {
-				if passedCommit(r) && !q(r) {
-					ok = false
-				}
-			}
-			c.decide("PASS-index-maintenance", "SaveVersion clears "+f.Name()+" after commit", l.pos(sv.Pos()), ok, "cleared on every committed success path", "a committed success path keeps overlay entries: they are written again with the next version")
-		}
-	}
+	checkOverlayMaintenance(c, "PASS-index-maintenance")
+	// a discard of the working state discards its overlay too (on every path of Rollback)
+	checkRollbackFrame(c)
+	checkFailedRebuildDisablesIndex(c, "PASS-index-maintenance")
 }
 
 // treeVersionTied: is the *ImmutableTree value src the tree of version L at block b?
@@ -577,5 +474,275 @@ func checkRebuildDecision(c *Ctx, rule string) {
 			ok = ok && q(r)
 		}
 		c.decide(rule, "Importer.Commit loads the imported version (rebuild decision)", l.pos(impCommit.Pos()), ok, "passes LoadVersion", "import can succeed without LoadVersion: the index is never built for the imported tree")
+	}
+}
+
+// checkIndexCacheOwner (shared by C07 and C06): the in-memory index cache is
+// filled only by the read-through lookup and by Commit after the physical
+// write returned nil; inside Commit no entry is added after a removal was
+// applied (a key queued in both lists — a failed commit followed by a Remove
+// and a successful commit — must end up absent: a miss is harmless, a stale
+// entry is served as the latest version's value).
+func checkIndexCacheOwner(c *Ctx, rule string) {
+	l := c.L
+	getFast := l.Func("", "*nodeDB.GetFastNode")
+	fCache := l.Field("", "nodeDB", "fastNodeCache")
+	commit := l.Func("", "*nodeDB.Commit")
+	if fCache == nil || commit == nil || getFast == nil {
+		c.anchorMissing(rule, "nodeDB.fastNodeCache / Commit")
+	} else {
+		n := 0
+		for _, fn := range l.SrcFuncs {
+			allInstrs(fn, func(in ssa.Instruction) {
+				cc := callCommon(in)
+				if cc == nil || !cc.IsInvoke() || !isLoadOfField(fCache)(cc.Value) {
+					return
+				}
+				m := cc.Method.Name()
+				if m != "Add" && m != "Remove" {
+					return
+				}
+				n++
+				key := l.fname(fn) + " fastNodeCache." + m
+				switch {
+				case fn == getFast && m == "Add":
+					c.ok(rule, key, l.ipos(in), "read-through fill by the lookup")
+				case fn == commit:
+					ok := false
+					for _, w := range callsIn(commit, isBatchWrite) {
+						if cl, isCall := w.(*ssa.Call); isCall && okEdgeDominatesPhi(cl, in) {
+							ok = true
+						}
+					}
+					c.decide(rule, key, l.ipos(in), ok, "after the physical write returned nil", "the index cache is updated although the write may have failed")
+				default:
+					c.bad(rule, key, l.ipos(in), "the index cache is modified outside the lookup and Commit: cache and storage can disagree before the commit")
+				}
+			})
+		}
+		if n < 3 {
+			c.anchorMissing(rule, "fewer than 3 cache update sites")
+		}
+		// order inside Commit: additions first, removals last
+		isOp := func(name string) func(ssa.Instruction) bool {
+			return func(in ssa.Instruction) bool {
+				cc := callCommon(in)
+				return cc != nil && cc.IsInvoke() && cc.Method.Name() == name && isLoadOfField(fCache)(cc.Value)
+			}
+		}
+		for _, rm := range callsInFn(commit, isOp("Remove")) {
+			later := reachableAfter(rm, isOp("Add"), nil)
+			msg := ""
+			if len(later) > 0 {
+				msg = "an index cache entry is added at " + l.ipos(later[0]) + " after the pending removals were applied: a key queued in both lists (failed commit, then Remove) stays cached with the latest version's label"
+			}
+			c.decide(rule, "nodeDB.Commit applies pending cache removals after the additions", l.ipos(rm), len(later) == 0, "no Add follows a Remove", msg)
+		}
+	}
+}
+
+// callsInFn lists the instructions of fn satisfying pred.
+func callsInFn(fn *ssa.Function, pred func(ssa.Instruction) bool) []ssa.Instruction {
+	var out []ssa.Instruction
+	allInstrs(fn, func(in ssa.Instruction) {
+		if pred(in) {
+			out = append(out, in)
+		}
+	})
+	return out
+}
+
+// checkOverlayMaintenance (shared by C07 and C08): every path that installs a
+// new working root records the overlay entry the index-plus-overlay iterator
+// and the indexed reads depend on; a completed commit clears the overlay, and
+// only after the commit.
+func checkOverlayMaintenance(c *Ctx, rule string) {
+	l := c.L
+	// overlay recording
+	set := l.Func("", "*MutableTree.set")
+	rsl := l.Func("", "*MutableTree.recursiveSetLeaf")
+	rs := l.Func("", "*MutableTree.recursiveSet")
+	rem := l.Func("", "*MutableTree.Remove")
+	addA := l.Func("", "*MutableTree.addUnsavedAddition")
+	addR := l.Func("", "*MutableTree.addUnsavedRemoval")
+	fRoot := l.Field("", "ImmutableTree", "root")
+	if set == nil || rsl == nil || rs == nil || rem == nil || addA == nil || addR == nil || fRoot == nil {
+		c.anchorMissing(rule, "set / recursiveSet / recursiveSetLeaf / Remove / overlay helpers")
+	} else {
+		isCallTo := func(fs ...*ssa.Function) func(ssa.Instruction) bool {
+			p := predStatic(fs...)
+			return func(in ssa.Instruction) bool { cc := callCommon(in); return cc != nil && p(cc) }
+		}
+		// recursiveSetLeaf: every return records the addition
+		q := mustStateE(rsl, false, isCallTo(addA), nil, fastDisabledEdge)
+		ok := true
+		for _, r := range returnsOf(rsl) {
+			ok = ok && q(r)
+		}
+		c.decide(rule, "recursiveSetLeaf records the overlay addition", l.pos(rsl.Pos()), ok, "every return passes addUnsavedAddition or the index-disabled edge", "a leaf can be inserted/replaced without an overlay entry: indexed reads of the working state miss the write")
+		// recursiveSet: success returns pass a descent
+		q = mustState(rs, false, isCallTo(rs, rsl), nil)
+		ok = true
+		for _, r := range successReturns(rs) {
+			ok = ok && q(r)
+		}
+		c.decide(rule, "recursiveSet always descends to a leaf insert", l.pos(rs.Pos()), ok, "every success return passes recursiveSet/recursiveSetLeaf", "recursiveSet can return success without reaching the leaf insert that records the overlay")
+		// set / Remove: every store of the working root passes a recorder
+		for _, fn := range []*ssa.Function{set, rem} {
+			rec := isCallTo(addA, addR, rs, rsl)
+			q := mustStateE(fn, false, rec, nil, fastDisabledEdge)
+			sts := storesToField(fn, fRoot)
+			if len(sts) == 0 {
+				c.anchorMissing(rule, l.fname(fn)+" stores no root")
+			}
+			for _, st := range sts {
+				// recorder may also follow the store within the same straight-line region: accept if every return reachable from the store passes it
+				okk := q(st)
+				if !okk {
+					q2 := mustStateE(fn, false, rec, nil, fastDisabledEdge)
+					okk = true
+					searchFrom([]point{after(st)}, func(in ssa.Instruction) bool {
+						if r, isRet := in.(*ssa.Return); isRet {
+							if !q2(r) {
+								okk = false
+							}
+							return true
+						}
+						return false
+					})
+				}
+				c.decide(rule, l.fname(fn)+" new root ⇒ overlay entry", l.ipos(st), okk, "the working root changes only together with an overlay entry (or with the index disabled)", "the working root is replaced on a path that records no overlay entry")
+			}
+		}
+	}
+	// commit clears overlay
+	sv := l.Func("", "*MutableTree.SaveVersion")
+	fAdd := l.Field("", "MutableTree", "unsavedFastNodeAdditions")
+	fRem := l.Field("", "MutableTree", "unsavedFastNodeRemovals")
+	commitFn := l.Func("", "*nodeDB.Commit")
+	if sv != nil && fAdd != nil && fRem != nil && commitFn != nil {
+		for _, f := range []*types.Var{fAdd, fRem} {
+			f := f
+			q := mustStateE(sv, false, func(in ssa.Instruction) bool { return isStoreToField(in, f) }, nil, fastDisabledEdge)
+			passedCommit := mustState(sv, false, func(in ssa.Instruction) bool { cc := callCommon(in); return cc != nil && predStatic(commitFn)(cc) }, nil)
+			ok := true
+			for _, r := range successReturns(sv) {
+				if passedCommit(r) && !q(r) {
+					ok = false
+				}
+			}
+			c.decide(rule, "SaveVersion clears "+f.Name()+" after commit", l.pos(sv.Pos()), ok, "cleared on every committed success path", "a committed success path keeps overlay entries: they are written again with the next version")
+		}
+	}
+	// the overlay survives a failed commit: it is not cleared before Commit() returned nil
+	if sv != nil && fAdd != nil && fRem != nil && commitFn != nil {
+		var commitCall *ssa.Call
+		for _, in := range callsIn(sv, predStatic(commitFn)) {
+			if cl, ok := in.(*ssa.Call); ok {
+				commitCall = cl
+			}
+		}
+		clears := l.newFnReach(func(fn *ssa.Function) bool {
+			w := false
+			allInstrs(fn, func(in ssa.Instruction) {
+				if isStoreToField(in, fAdd, fRem) {
+					w = true
+				}
+			})
+			return w && fn != sv
+		})
+		okEarly := commitCall != nil
+		var at ssa.Instruction
+		allInstrs(sv, func(in ssa.Instruction) {
+			if commitCall == nil {
+				return
+			}
+			isClear := isStoreToField(in, fAdd, fRem) || (callCommon(in) != nil && clears.Instr(in))
+			if !isClear {
+				return
+			}
+			// on the idempotent re-save edge nothing was queued; otherwise the clear must follow a successful commit
+			if okEdgeDominates(commitCall, in) {
+				return
+			}
+			if reachesInstr(in, commitCall) {
+				okEarly, at = false, in
+			}
+		})
+		pos := l.pos(sv.Pos())
+		if at != nil {
+			pos = l.ipos(at)
+		}
+		c.decide(rule, "SaveVersion keeps the overlay until the commit succeeded", pos, okEarly, "no overlay reset can precede Commit()", "the overlay of uncommitted index changes is cleared before Commit(): if the commit fails the working tree keeps its changes but indexed iteration / reads of the working state show the last committed state")
+	}
+}
+
+// reachesInstr: can control flow from instruction a reach instruction b?
+func reachesInstr(a, b ssa.Instruction) bool {
+	found := false
+	searchFrom([]point{after(a)}, func(in ssa.Instruction) bool {
+		if in == b {
+			found = true
+			return true
+		}
+		return false
+	})
+	return found
+}
+
+// checkFailedRebuildDisablesIndex: when the rebuild of a stale index fails,
+// the in-memory storage version is put back to the constant "not indexed"
+// value before the error is returned.  Load() has already installed the tree
+// at that point; if the in-memory label still says "indexed" (e.g. the label
+// of an older version read from disk), indexed reads and iteration serve the
+// stale entries until a later Load succeeds.
+func checkFailedRebuildDisablesIndex(c *Ctx, rule string) {
+	l := c.L
+	enable := l.Func("", "*MutableTree.enableFastStorageAndCommitIfNotEnabled")
+	efc := l.Func("", "*MutableTree.enableFastStorageAndCommit")
+	fSV := l.Field("", "nodeDB", "storageVersion")
+	if enable == nil || efc == nil || fSV == nil {
+		c.anchorMissing(rule, "enableFastStorageAndCommitIfNotEnabled / enableFastStorageAndCommit / nodeDB.storageVersion")
+		return
+	}
+	for _, in := range callsIn(enable, predStatic(efc)) {
+		call, ok := in.(*ssa.Call)
+		if !ok {
+			continue
+		}
+		e, has := errorValueOfCall(call)
+		if !has || e == nil {
+			c.bad(rule, "failed index rebuild disables the index in memory", l.ipos(in), "the rebuild's error is not examined")
+			continue
+		}
+		okAll, found := true, false
+		for _, b := range enable.Blocks {
+			iff := ifOf(b)
+			if iff == nil {
+				continue
+			}
+			v, nn, isNil := nilCond(iff.Cond)
+			if !isNil || stripTrivial(v) != e {
+				continue
+			}
+			found = true
+			// every return on the error edge is preceded by a store of a CONSTANT into ndb.storageVersion
+			searchFrom([]point{blockStart(b.Succs[nn])}, func(x ssa.Instruction) bool {
+				if st, isSt := x.(*ssa.Store); isSt && isStoreToField(st, fSV) {
+					if _, isK := stripTrivial(st.Val).(*ssa.Const); isK {
+						return true
+					}
+					okAll = false
+					return true
+				}
+				if _, isRet := x.(*ssa.Return); isRet {
+					okAll = false
+					return true
+				}
+				return false
+			})
+		}
+		c.decide(rule, "failed index rebuild disables the index in memory", l.ipos(in), found && okAll, "storageVersion reset to the constant default on the error edge",
+			"after a failed rebuild the in-memory storage version is not reset to the constant 'not indexed' value (it keeps / restores a label read from disk): the loaded tree goes on serving the stale index")
 	}
 }
